@@ -11,14 +11,14 @@ from . import core, probes
 
 # property -> (sampling rates, test selection)
 PLAN = {
-    "C01": ({"rhs": 7}, None),
-    "C02": ({"numflux": 23}, None),
+    "C01": ({"rhs": 2}, None),
+    "C02": ({"numflux": 5}, None),
     "C07": ({}, ["tests/test_1_integration.py", "tests/test_1_monitor.py", "tests/test_2_model_conv.py", "tests/test_2_model_burgers.py", "tests/test_2_model_shallowwater.py"]),
-    "C09": ({"step": 3}, None),
-    "C10": ({"step": 3}, None),
+    "C09": ({}, None),
+    "C10": ({}, None),
     "C12": ({}, ["tests/test_1_xnum.py", "tests/test_2_model_burgers.py", "tests/test_2_model_conv.py", "tests/test_3_euler_solution.py::test_shocktube"]),
-    "C16": ({"namedBC": 11}, None),
-    "C18": ({"timestep": 97, "calc_timestep": 97}, None),
+    "C16": ({"namedBC": 3}, None),
+    "C18": ({"timestep": 19, "calc_timestep": 19}, None),
     "C20": ({}, None),
 }
 
